@@ -303,5 +303,6 @@ func TestReplay(t *testing.T) {
 	kit.Replay[pair](t, map[string]func(kit.RawCase) kit.Outcome{
 		"pair": kit.ReplaySub(execLong),
 		"keys": kit.ReplaySub(execKeys),
+		"conckeys": kit.ReplaySub(execConcKeys),
 	})
 }
